@@ -38,7 +38,7 @@ def record_problems(res, fun, x):
             out.append(('record-shape', '%s of shape %r does not broadcast against the result %r' % (name, a.shape, val.shape)))
     fin = np.isfinite(val).ravel()
     e = est.ravel()
-    if np.any(fin & ~(np.isfinite(e) & (e >= 0))):
+    if np.any(fin & ~fw.nonneg_real(e)):
         out.append(('estimate-sign', 'error_estimate %r for finite result' % (est.tolist(),)))
     return out
 
@@ -188,7 +188,7 @@ def work_jac(chunk, tier='quick'):
                             except ValueError:
                                 prob = ('record-shape', '%s %r does not broadcast against the result %r' % (name, a.shape, val.shape))
                         e = np.abs(est.ravel())
-                        if prob is None and np.any(np.isfinite(val.ravel()) & ~(np.isfinite(e) & (est.ravel() >= 0))):
+                        if prob is None and np.any(np.isfinite(val.ravel()) & ~fw.nonneg_real(est.ravel())):
                             prob = ('estimate-sign', 'error_estimate %r for a finite result' % (est.tolist(),))
                     if prob:
                         acc.violation('C02:%s:%s:%s' % (cls, prob[0], method), jc, prob[1], rank=n * 100 + m)
